@@ -59,9 +59,13 @@ def too_big(name, a, b):
 
 
 def shards(tier, seed):
-    return [{'part': 'binary', 'extra': 0 if tier == 'quick' else 60},
-            {'part': 'compare', 'extra': 0 if tier == 'quick' else 60},
-            {'part': 'unary', 'extra': 0 if tier == 'quick' else 400}]
+    out = [{'part': 'binary', 'extra': 0 if tier == 'quick' else 60},
+           {'part': 'compare', 'extra': 0 if tier == 'quick' else 60},
+           {'part': 'unary', 'extra': 0 if tier == 'quick' else 400}]
+    # the same sweeps with pint quantities switched on (hszinc.use_pint()): Quantity is then also a pint quantity, the
+    # operators and conversions are still those of the value (bool magnitudes are refused by pint itself: left out)
+    out += [dict(x, pint=True) for x in out]
+    return out
 
 
 def rand_operands(seed, n):
@@ -85,7 +89,7 @@ def _viol(ctx, opname, mode, a, b, exp, got, third=None):
                    'features': ['op=' + opname, 'placement=' + mode]},
                   '%s %s: operands %r, %r%s: bare values give %r, Quantity gives %r' % (
                       opname, mode, a, b, '' if third is None else ', mod %r' % (third,), exp, got),
-                  {'op': opname, 'mode': mode, 'a': repr(a), 'b': repr(b), 'third': repr(third)})
+                  {'pint': PINT_TAG == 'pint', 'op': opname, 'mode': mode, 'a': repr(a), 'b': repr(b), 'third': repr(third)})
 
 
 def eval_case(ctx, Q, opname, fn, mode, a, b, third=None):
@@ -103,7 +107,7 @@ def eval_case(ctx, Q, opname, fn, mode, a, b, third=None):
         got = outcome(fn, Q(a, None), Q(b, '%'), *extra)
     else:
         got = outcome(fn, Q(a, 'kg'), Q(b, '%'), *extra)
-    ctx.case(opname, mode, repr(a), repr(b), repr(third))
+    ctx.case(PINT_TAG, opname, mode, repr(a), repr(b), repr(third))
     ctx.cls(opname, mode, cls_of(a), cls_of(b))
     ctx.count('exceptions matched by class' if exp[0] == 'raise' and got == exp else 'results compared')
     if got != exp:
@@ -111,9 +115,29 @@ def eval_case(ctx, Q, opname, fn, mode, a, b, third=None):
     return exp, got
 
 
+PINT_TAG = 'basic'
+
+
+class _Unbuildable(Exception):
+    pass
+
+
 def run_shard(spec, ctx):
     import hszinc
+    global CAT, SMALL, PINT_TAG
     Q = hszinc.Quantity
+    if spec.get('pint'):
+        import warnings
+        warnings.simplefilter('ignore')
+        hszinc.use_pint(True)
+        if type(hszinc.Quantity(1, 'kg')).__name__ != 'PintQuantity':
+            ctx.inconc('pint mode could not be switched on')
+            return
+        CAT = [x for x in CAT if not isinstance(x, bool)]
+        SMALL = [x for x in SMALL if not isinstance(x, bool)]
+        PINT_TAG = 'pint'
+        ctx.count('pint-mode shards')
+        ctx.cls('mode', 'pint')
     extra = rand_operands(ctx.seed * 1000003 + 5, spec['extra'])
     part = spec['part']
     if part == 'binary':
@@ -147,7 +171,7 @@ def run_shard(spec, ctx):
                     # a Quantity without unit against one with a unit: the units differ -> TypeError, both ways
                     for label, qa, qb in (('QQ-right-unitless', Q(a, 'kg'), Q(b, None)), ('QQ-left-unitless', Q(a, None), Q(b, 'kg'))):
                         g2 = outcome(fn, qa, qb)
-                        ctx.case(name, label, repr(a), repr(b))
+                        ctx.case(PINT_TAG, name, label, repr(a), repr(b))
                         ctx.count('unit-mismatch comparisons')
                         if g2 != ('raise', 'TypeError'):
                             _viol(ctx, name, label, a, b, ('raise', 'TypeError'), g2)
@@ -157,7 +181,7 @@ def run_shard(spec, ctx):
                         _viol(ctx, name, 'QQ-both-unitless', a, b, outcome(fn, a, b), g3)
                     # different units: TypeError, always
                     got = outcome(fn, Q(a, 'kg'), Q(b, 'm'))
-                    ctx.case(name, 'QQdiff', repr(a), repr(b))
+                    ctx.case(PINT_TAG, name, 'QQdiff', repr(a), repr(b))
                     ctx.cls(name, 'QQdiff', cls_of(a), cls_of(b))
                     ctx.count('unit-mismatch comparisons')
                     if got != ('raise', 'TypeError'):
@@ -172,7 +196,7 @@ def run_shard(spec, ctx):
                 for u in ('kg', '%', None, u'°C'):
                     exp = outcome(fn, a)
                     got = outcome(fn, Q(a, u))
-                    ctx.case(name, repr(a), u)
+                    ctx.case(PINT_TAG, name, repr(a), u)
                     ctx.cls(name, 'unary', cls_of(a))
                     ctx.count('unary/conversion compared')
                     if got != exp:
@@ -180,7 +204,7 @@ def run_shard(spec, ctx):
                             'exception' if 'raise' in (exp[0], got[0]) else 'result'),
                             'features': ['op=' + name, 'placement=unary']},
                             '%s(Quantity(%r, %r)) gives %r, %s(%r) gives %r' % (name, a, u, got, name, a, exp),
-                            {'op': name, 'mode': 'unary', 'a': repr(a), 'b': repr(u)})
+                            {'pint': PINT_TAG == 'pint', 'op': name, 'mode': 'unary', 'a': repr(a), 'b': repr(u)})
         ctx.sample({'op': 'int', 'a': 'inf', 'bare': outcome(int, float('inf')), 'quantity': outcome(int, Q(float('inf'), 'kg'))})
 
 
@@ -190,6 +214,12 @@ def _lit(s):
 
 def replay(case, ctx):
     import hszinc
+    global PINT_TAG
+    if case.get('pint'):
+        import warnings
+        warnings.simplefilter('ignore')
+        hszinc.use_pint(True)
+        PINT_TAG = 'pint'
     Q = hszinc.Quantity
     table = dict(BIN + CMP + UNARY)
     table['pow3'] = pow
@@ -215,6 +245,8 @@ def finish(ctx, merged):
     c = merged['counters']
     if c.get('results compared', 0) < 1000 or c.get('exceptions matched by class', 0) < 100:
         ctx.inconclusive.append('too few comparisons observed')
+    if c.get('pint-mode shards', 0) < 3:
+        ctx.inconclusive.append('pint-mode shards did not all run')
     if c.get('unit-mismatch comparisons', 0) == 0:
         ctx.inconclusive.append('unit-mismatch comparisons never ran')
     merged['exhaustive'] = True
